@@ -326,7 +326,7 @@ func glueTransformCase(r *Rng, st *Stats, src string, d *dom, o glueOpts, scenar
 			for k, v := range detail {
 				input[k] = v
 			}
-			st.Fail("cascade-winner-changed", input, detail["output_winner"], detail["input_winner"])
+			failC12(st, "cascade-winner-changed", input, detail["output_winner"], detail["input_winner"])
 		}
 	}
 	return inItems, true
